@@ -1172,4 +1172,20 @@ Section OneMessage.
     - unfold Dlv in *. rewrite Hi. exact A15.
   Qed.
 
+
+  (* until it is delivered the sender holds the message: not done, and queued or scheduled for a retry *)
+  Lemma LJ_custody x y wxy wyx tickx : LJ x y wxy wyx tickx -> c_incoming y = inc0 ->
+    done x = false /\
+    ((exists m, In m (c_outgoing x) /\ m_seq m = mseq /\ m_payload m = p /\ m_retry m = RTimeout /\ m_cb m = Some K)
+     \/ (exists m, In (mseq, m) (c_pretry_msg x) /\ m_payload m = p /\ m_cb m = Some K)).
+  Proof.
+    intros [A1 A2 A3 A4 A5 A6 A7 A8 A8' A9 A10 A11 A12 A13 A14 A15] Hu.
+    assert (Hd : done x = false).
+    { destruct (done x) eqn:Ed; [|reflexivity]. exfalso. eapply Dlv_not_inc0; [apply A13; reflexivity|exact Hu]. }
+    split; [exact Hd|]. destruct A1 as [Q1 Q2 Q3 Q4 Q5].
+    destruct Q5 as [Q5|[Q5|Q5]]; [congruence| |].
+    - left. destruct (c_outgoing x) as [|m q] eqn:Eo; [contradiction|]. inversion Q1 as [|? ? (a & ->) _]; subst.
+      exists (mk a). split; [left; reflexivity|]. cbn. auto.
+    - right. destruct Q2 as [Q2|Q2]; [contradiction|]. rewrite Q2. eexists. split; [left; reflexivity|]. cbn. auto.
+  Qed.
 End OneMessage.
